@@ -101,6 +101,18 @@ CHECKS = [
         "Trusted: givc, schema, assumed contracts for _strip_symbol/_create_type_from_base/_resolve_type_from_ctype/"
         "lookup_giname/resolve_aliases, str(int) as injective UF. Enum member creation and emission not yet under contract. "
         "One known finding (platform-width unsigned types are not wrapped).", "DESIGN.md section 4 C13"),
+    chk("C04", "Contracts on the real prefix matcher Transformer._split_c_string_for_namespace_matches (three loops, inner break, "
+        "sort with key, map) and on _sort_matches, _strip_symbol, _create_function, Namespace.append/remove and "
+        "MainTransformer._is_method: if any prefix of the current namespace matches, the best match (last element) is the "
+        "current namespace; every stripped name is the suffix left after a prefix and, for symbols, the prefix ends at an "
+        "underscore; ValueError only when no prefix of any namespace matches; a function is described under its C name, "
+        "underscore symbols are left out, a name is never silently overwritten in a namespace; a method has an in instance "
+        "parameter of a type of this namespace and carries its prefix unless annotated.",
+        "Trusted: givc, schema, _iter_namespaces (generator: current namespace first), list.sort / list(map()) as "
+        "permutation / element-wise image instantiated at witness indices, valid string lemma instances, split_csymbol and "
+        "Namespace.track by assumed contract, filter commands excluded by precondition. Not under contract: tag-namespace "
+        "typedef/struct handling, _pair_function/_is_constructor/_pair_static_method, to_underscores, the exactly-once "
+        "statement over a whole scan (a whole-history property), get-type folding.", "DESIGN.md section 4 C04"),
     chk("C02", "Function contracts on the real transfer-default functions of maintransformer.py; every obligation is "
         "discharged by z3 for all field valuations.",
         "Trusted: givc VC generator, class schema, Transformer lookups as uninterpreted functions. "
@@ -108,7 +120,6 @@ CHECKS = [
 ]
 
 NA_ALL = {
- "C04": "prefix matching (_split_c_string_for_namespace_matches: generator, nested for/else loops, sort with key, map/lambda) and the method/constructor pairing were not brought under contract in the time available; no partial claim is made (DESIGN.md section 9)",
  "C06": "needs a byte-level memory model and GLib contracts for ~7k lines of C (girparser.c, girnode.c, girmodule.c); no C verifier installed and the code cannot be built here",
  "C10": "the annotation tokenizer and the line state machine (500 lines driven by 15 regular expressions) were not brought under contract; no partial claim is made (DESIGN.md section 9)",
  
